@@ -184,23 +184,22 @@ class Cell:
         if radius < 1:
             raise ValueError("radius must be larger than one")
         if radius == 1:
-            neighborhood = {
+            neighborhood: dict[Cell, list[Agent]] = {
                 neighbor: neighbor._agents for neighbor in self.connections.values()
             }
-            if not include_center:
-                return neighborhood
-            else:
-                neighborhood[self] = self._agents
-                return neighborhood
         else:
-            neighborhood: dict[Cell, list[Agent]] = {}
+            neighborhood = {}
             for neighbor in self.connections.values():
                 neighborhood.update(
                     neighbor._neighborhood(radius - 1, include_center=True)
                 )
-            if not include_center:
-                neighborhood.pop(self, None)
-            return neighborhood
+        # the center belongs to the result if and only if include_center is set,
+        # whether or not the cell is connected to itself or to anything at all
+        if include_center:
+            neighborhood[self] = self._agents
+        else:
+            neighborhood.pop(self, None)
+        return neighborhood
 
     def __getstate__(self):
         """Return state of the Cell with connections set to empty."""
